@@ -150,7 +150,7 @@ func (e *c15env) validate(raw []byte, m settingsMask) (rej quickfix.MessageRejec
 }
 
 var mutationKinds = []string{"unknown-msgtype", "missing-required-top", "missing-required-member", "undefined-known", "undefined-unknown", "undefined-user",
-	"ill-typed", "enum", "empty", "count+1", "count-1", "swap-members", "header-in-body", "body-in-header", "duplicate", "duplicate-tolerated-unknown", "duplicate-tolerated-user", "header-enum"}
+	"ill-typed", "enum", "empty", "count+1", "count-1", "swap-members", "header-in-body", "body-in-header", "trailer-in-header", "duplicate", "duplicate-tolerated-unknown", "duplicate-tolerated-user", "header-enum"}
 
 type expectation struct {
 	reasons  []int
@@ -165,7 +165,7 @@ func relaxedBy(kind string, s quickfix.ValidatorSettings, tag int) bool {
 		return false
 	case "empty":
 		return !s.CheckFieldsHaveValues
-	case "header-in-body", "body-in-header":
+	case "header-in-body", "body-in-header", "trailer-in-header":
 		return !s.CheckFieldsOutOfOrder
 	case "undefined-known", "undefined-unknown":
 		return !s.RejectInvalidMessage || s.AllowUnknownMessageFields
@@ -570,6 +570,17 @@ func (e *c15env) run(ch specxml.Chooser, kind string, mask settingsMask, replay 
 		moved := mBody[i]
 		removeAt(i)
 		at := 1 + ch.Intn(len(mHead)-1) // after 35, before at least one header field
+		next := mHead[at].Tag
+		mHead = append(mHead[:at], append([]fixwire.Field{moved}, mHead[at:]...)...)
+		exp = expectation{reasons: []int{14}, tags: []int{moved.Tag, next}}
+	case "trailer-in-header":
+		// a signature field among the header fields, with header fields still to come: the header run
+		// ends there, so the next header field is out of order
+		moved := fixwire.F(93, "3")
+		if ch.Intn(2) == 0 {
+			moved = fixwire.F(89, "abc")
+		}
+		at := 1 + ch.Intn(len(mHead)-1)
 		next := mHead[at].Tag
 		mHead = append(mHead[:at], append([]fixwire.Field{moved}, mHead[at:]...)...)
 		exp = expectation{reasons: []int{14}, tags: []int{moved.Tag, next}}
